@@ -19,16 +19,18 @@ from harness import core, tlc
 from harness.tlaparse import iter_dump_states
 
 # ---- the request space (names are defined in spec/MC_C03.tla LineOf) -----------------------------
-FR_QUICK = ["g", "g_lf", "g_eof", "g_sp", "g_tab", "g_q", "g_q_tab", "g_4f", "gp_plus", "gp_view", "gp_info", "gp_dir",
-            "gp_q", "h_get", "h_head", "h_noblank", "h_hdrs_noblank", "h_09", "h_q", "w_get", "w_hdr", "gem", "gem_q",
+FR_QUICK = ["g", "g_lf", "g_eof", "g_tab", "g_q", "g_q_tab", "g_4f", "gp_plus", "gp_view", "gp_info", "gp_dir",
+            "gp_q", "h_get", "h_head", "h_noblank", "h_09", "h_q", "w_get", "w_hdr", "gem", "gem_q",
             "gem_bad1", "gem_bad2", "gem_noauth", "gem_query", "gem_query_q", "gem_plain", "s", "s_short", "s_2sp",
-            "tg", "tg_tab", "th_get"]
-FR_MORE = ["h_hdrs", "h_11", "h_post", "w_head", "gem_ip6", "gem_bad3", "s_body", "s_tls", "tgp_plus"]
+            "tg", "tg_tab", "th_get",
+            # non-ASCII / Unicode-digit class in the numeric positions of the frames
+            "s_len_nd", "s_len_ud", "gem_port_nd", "h_ver_nd"]
+FR_MORE = ["g_sp", "h_hdrs_noblank", "s_host_na", "gp_view_na", "g_q_na", "h_hdrs", "h_11", "h_post", "w_head", "gem_ip6", "gem_bad3", "s_body", "s_tls", "tgp_plus"]
 SELS = ["", "/", "/d", "/d/", "/gm", "/umn", "/about.txt", "/big.txt", "/page.html", "/t.txt.gz", "/run.sh", "/p.pyg",
         "/m.mbox", "/md", "/z.zip", "/z.zip/sub", "/z.zip/sub/inner.txt", "/z.zip/nope", "/nofile", "/a~b", "/a%00b",
         "/%zz", "/%2", "/x%0d%0ay", "/x\ry", "/../about.txt", "/d//a.txt", "/URL:http://x.org/", "/1/about.txt",
         "/about.txt/x", "/d/.cache.pygopherd.dir"]
-SELS_MORE = ["/about.txt~", "/x%0Ay", "/x%0dy", "/a%7Cb", "/d%2fa.txt", "/d/%2e%2e/about.txt", "/umn/f.txt", "/gm/x.txt",
+SELS_MORE = ["/caf@.txt", "/about.txt~", "/x%0Ay", "/x%0dy", "/a%7Cb", "/d%2fa.txt", "/d/%2e%2e/about.txt", "/umn/f.txt", "/gm/x.txt",
              "/md/new", "/z.zip/top.txt", "/__pycache__", "/wapx"]
 ARG_FRAMES = ["g", "gp_plus", "h_get", "gem", "s"]
 ARG_FRAMES_MORE = ["gp_info", "h_head", "w_get", "tg"]
@@ -37,13 +39,17 @@ ARGS = ["|/MBOX-MESSAGE/0", "|/MBOX-MESSAGE/1", "|/MBOX-MESSAGE/2", "|/MBOX-MESS
         "|/MBOX-MESSAGE/-1", "|/MBOX-MESSAGE/x", "|/MAILDIR-MESSAGE/0", "|/MAILDIR-MESSAGE/1", "|/MAILDIR-MESSAGE/2",
         "|/MAILDIR-MESSAGE/3", "?/MBOX-MESSAGE/1", "|", "|/MBOX-MESSAGE/",
         # digit strings beyond the machine word (2^63 + 1) and with very many digits: never integers in the model
-        "|/MBOX-MESSAGE/9223372036854775809", "|/MAILDIR-MESSAGE/1000000000000000000000000000000"]
+        "|/MBOX-MESSAGE/9223372036854775809", "|/MAILDIR-MESSAGE/1000000000000000000000000000000",
+        # Unicode digits in the number: '^' = U+00B2 (isdigit, not decimal), '`' = U+0663 (decimal digit 3)
+        "|/MBOX-MESSAGE/^", "|/MBOX-MESSAGE/`", "|/MAILDIR-MESSAGE/1^"]
 ARGS_MORE = ["|/MBOX-MESSAGE/01", "|/MBOX-MESSAGE/99999999999999999999", "|/MAILDIR-MESSAGE/1000000000", "?", "|x",
              "|/MBOX-MESSAGE/18446744073709551616", "|/MAILDIR-MESSAGE/9223372036854775808"]
 # about ten representative read-only requests for histories (frame, selector, argument)
 REPS = [("g", "/", ""), ("gp_dir", "/", ""), ("h_get", "/", ""), ("g", "/d", ""), ("gp_dir", "/d", ""),
-        ("g", "/d/.cache.pygopherd.dir", ""), ("g", "/p.pyg", ""), ("gem", "/", ""), ("g", "/about.txt", ""),
-        ("g", "/z.zip", ""), ("h_get", "/d", ""), ("gp_info", "/d/empty.txt", ""), ("g", "/nofile", "")]
+        ("g", "/d/.cache.pygopherd.dir", ""), ("g", "/p.pyg", ""), ("g", "/d//", ""), ("g", "//", ""), ("g", "/z.zip", ""),
+        # (quick = the first 10; trailing-slash spellings of directory selectors are both earlier and later requests)
+        ("g", "/d/", ""), ("g", "/d///", ""), ("gem", "/", ""),
+        ("g", "/about.txt", ""), ("h_get", "/d", ""), ("gp_info", "/d/empty.txt", ""), ("g", "/nofile", "")]
 # history runs: exhaustive up to maxhist over the first nreps representatives, or (sim) random longer ones
 
 TIERS = {
@@ -51,9 +57,9 @@ TIERS = {
                   hls=["default", "full"], hist=[dict(hl="full", nreps=10, maxhist=2)]),
     "thorough": dict(frames=FR_QUICK + FR_MORE, sels=SELS + SELS_MORE, arg_frames=ARG_FRAMES + ARG_FRAMES_MORE,
                      arg_sels=ARG_SELS, args=ARGS + ARGS_MORE, hls=["default", "full"],
-                     hist=[dict(hl="full", nreps=13, maxhist=2), dict(hl="default", nreps=13, maxhist=2),
-                           dict(hl="full", nreps=7, maxhist=3),
-                           dict(hl="full", nreps=13, maxhist=8, sim=400, depth=150)]),
+                     hist=[dict(hl="full", nreps=17, maxhist=2), dict(hl="default", nreps=13, maxhist=2),
+                           dict(hl="full", nreps=8, maxhist=3),
+                           dict(hl="full", nreps=17, maxhist=8, sim=400, depth=150)]),
 }
 OPS_A, OPS_B = 60, 25            # Bounded: environment operations <= OPS_A + OPS_B * (nodes of the tree)
 
@@ -202,10 +208,10 @@ def observe(rq, role, count_fds=False, fail_exc=None):
     ev = {"ev": "conn", "role": role, "rq": rq, "proto": proto, "frames": L.lex(proto, o.out),
           "log": [{"addr": r["addr"], "proto": r["proto"], "cls": r["cls"], "fam": r["fam"]} for r in recs if r["ev"] == "log"],
           "esc": o.escaped or "none", "ops": o.ops, "mark": nlog_before if o.fail_marks else -1,
-          "nfds": len(o.fds_leaked), "digest": L.digest(o.out), "arts": _arts(L) if role != "single" else []}
+          "nfds": len(o.fds_leaked), "nproc": len(o.children_left), "digest": L.digest(o.out), "arts": _arts(L) if role != "single" else []}
     extra = {"bytes": data.decode("latin-1"), "out": o.out[:400].decode("latin-1"), "outlen": len(o.out), "log": o.log[:8],
              "handlers": [r["handler"] for r in recs if r["ev"] == "served"], "detect_raised": raised,
-             "writes": o.writes, "leaked": o.fds_leaked, "unread": o.reads_left}
+             "writes": o.writes, "leaked": o.fds_leaked, "children_left": o.children_left, "unread": o.reads_left}
     return ev, extra
 
 
@@ -413,7 +419,7 @@ def main(chk, replay=None):
     lap("trace_validation")
     # 4. vacuity guards and measured coverage
     conns = [(tr, e, x) for tr in traces for e, x in zip(tr["events"], tr["extras"]) if e["ev"] == "conn"]
-    if not replay:
+    if not replay and not chk.violations:       # (an observed violation is a verdict; vacuity guards only gate a PASS)
         if not any(e["log"] for _t, e, _x in conns) or not any(len(e["frames"]) > 1 for _t, e, _x in conns):
             raise core.MachineryError("C03: no error path / no structured reply was observed: harness not effective")
         if max(e["ops"] - x["writes"] for _t, e, x in conns) <= 1:
